@@ -5,6 +5,13 @@
 //   rtl_hex step                  planted states.  stdin, one case per line: "pc areg breg oreg ncells (addr val)*"
 //        stdout per case: "R pc a b o | W addr val | sv sc | f"   (W - when no write; sv/sc = o_syscall_valid/o_syscall
 //        and f = fetched byte, all sampled before the rising edge; registers and the written word after it)
+//   rtl_hex reset                 WARM resets.  stdin, one case per line: "pc areg breg oreg word0 how": the registers and memory
+//        word 0 are planted (any state a run may have reached), then i_rst is raised -- how=0: while the clock is low
+//        (between two edges), how=1: together with a rising clock edge, as hextb does -- held over one more rising edge
+//        and released with the clock low.  stdout per case:
+//        "Z <pc a b o sv sc f> | <pc a b o sv sc f> | <pc a b o sv sc f> | stray"  = registers, request lines and fetched byte
+//        right after reset is raised / after the rising edge under reset / after release; stray = 1 when a memory
+//        word among 0..31 changed
 //   rtl_hex run <bin> <maxclocks> <from> <to>     whole run with hextb.cpp's system-call shim re-implemented minimally
 //        (exit / write / read through mem[1]; console input = stdin; file streams are empty).  Prints "D <clock> <hash>"
 //        every 4096 clocks, "T ..." lines for clocks in [from,to), and an "END ..." summary -- same format as
@@ -110,6 +117,38 @@ static int step_mode(Dut &d) {
   return 0;
 }
 
+static int reset_mode(Dut &d) {
+  char buf[1 << 12];
+  while (std::fgets(buf, sizeof buf, stdin)) {
+    unsigned long long pc, a, b, o, w0, how;
+    if (std::sscanf(buf, "%llu %llu %llu %llu %llu %llu", &pc, &a, &b, &o, &w0, &how) != 6) continue;
+    d.low();
+    for (uint32_t i = 0; i < 32; i++) d.mem[i] = 0x01010101u * (i + 1);
+    d.mem[0] = (uint32_t)w0;
+    *d.pc = pc & 0x1fffff; *d.a = (uint32_t)a; *d.b = (uint32_t)b; *d.o = (uint32_t)o;
+    d.top->eval();
+    uint32_t before[32];
+    for (uint32_t i = 0; i < 32; i++) before[i] = d.mem[i];
+    auto show = [&](const char *sep) {
+      std::printf("%s%u %u %u %u %u %u %u", sep, *d.pc, *d.a, *d.b, *d.o, (unsigned)d.top->o_syscall_valid, (unsigned)d.top->o_syscall, (unsigned)*d.instr); };
+    d.top->i_rst = 1;
+    if (how) d.top->i_clk = 1;
+    d.top->eval();
+    show("Z ");
+    d.top->i_clk = 0; d.top->eval();
+    d.top->i_clk = 1; d.top->eval();
+    show(" | ");
+    d.top->i_clk = 0; d.top->eval();
+    d.top->i_rst = 0; d.top->eval();
+    show(" | ");
+    bool stray = false;
+    for (uint32_t i = 0; i < 32; i++) if (d.mem[i] != before[i]) stray = true;
+    std::printf(" | %d\n", stray ? 1 : 0);
+  }
+  d.top->final();
+  return 0;
+}
+
 static int run_mode(Dut &d, const char *file, unsigned long long maxclocks, unsigned long long from, unsigned long long to) {
   FILE *fp = std::fopen(file, "rb");
   if (!fp) { std::fprintf(stderr, "cannot open %s\n", file); return 2; }
@@ -181,8 +220,9 @@ done:
 int main(int argc, char **argv) {
   Dut d(argc, argv);
   if (argc >= 2 && !std::strcmp(argv[1], "step")) return step_mode(d);
+  if (argc >= 2 && !std::strcmp(argv[1], "reset")) return reset_mode(d);
   if (argc >= 6 && !std::strcmp(argv[1], "run"))
     return run_mode(d, argv[2], std::strtoull(argv[3], 0, 10), std::strtoull(argv[4], 0, 10), std::strtoull(argv[5], 0, 10));
-  std::fprintf(stderr, "usage: rtl_hex step | run <bin> <maxclocks> <from> <to>\n");
+  std::fprintf(stderr, "usage: rtl_hex step | reset | run <bin> <maxclocks> <from> <to>\n");
   return 2;
 }
